@@ -284,7 +284,3 @@ def run(ctx: core.Ctx) -> core.Report:
                     rep.violation("C01:dgram-prefix", "messages before the malformed one were not delivered in order", case)
     return rep
 
-
-def replay(ctx, data):
-    print(data)
-    return 0
